@@ -16,14 +16,14 @@ Definition plain_rule (n : node) : Prop :=
 
 Lemma plain_rule_rules_only n : plain_rule n -> rules_only n.
 Proof.
-  destruct n as [| |sel body| |]; try contradiction. intros [Hs Hb]. apply rules_only_body. split; [exact Hs|].
+  destruct n as [| |sel body| | | |]; try contradiction. intros [Hs Hb]. apply rules_only_body. split; [exact Hs|].
   induction Hb as [|c r Hc Hr IH]; constructor; [|exact IH]. destruct c; try contradiction. exact Hc.
 Qed.
 
 Lemma plain_rule_flat n : plain_rule n ->
   flat None n = match n with NBlock sel body => match own_props body with [] => [] | ps => [(ident_parse None sel, ps)] end | _ => [] end.
 Proof.
-  destruct n as [| |sel body| |]; try contradiction. intros [Hs Hb]. cbn [flat].
+  destruct n as [| |sel body| | | |]; try contradiction. intros [Hs Hb]. cbn [flat].
   assert ((fix go (l : list node) : list group := match l with [] => [] | x :: r => flat (Some (ident_parse None sel)) x ++ go r end) body = []) as ->.
   { induction Hb as [|c r Hc Hr IH]; [reflexivity|]. destruct c; try contradiction. exact IH. }
   apply app_nil_r.
